@@ -80,11 +80,34 @@ def observe(make, via, order, want_att, want_md):
     return ev
 
 
+def raw_pipe(path):
+    """The file's bytes arriving through a raw (unbuffered) pipe: reads return at most what the pipe holds (64 KiB on
+    Linux), as for sys.stdin.buffer.raw or a socket opened without buffering."""
+    import os
+    import threading
+    r, w = os.pipe()
+
+    def feed():
+        try:
+            with open(path, "rb") as f, os.fdopen(w, "wb", 0) as wf:
+                while True:
+                    b = f.read(1 << 20)
+                    if not b:
+                        break
+                    wf.write(b)
+        except BrokenPipeError:
+            pass
+    threading.Thread(target=feed, daemon=True).start()
+    return os.fdopen(r, "rb", 0)
+
+
 with open(out_path, "w") as out:
     for job in json.load(open(jobs_path)):
         path = job["path"]
         res = {"id": job["id"], "reads": []}
         res["reads"].append(observe(lambda: NonSeekingReader(open(path, "rb"), validate_crcs=True), "stream", "file", True, True))
+        if job.get("rawpipe"):
+            res["reads"].append(observe(lambda: NonSeekingReader(raw_pipe(path), validate_crcs=True), "stream", "file", True, True))
         if job.get("seek"):
             for order in ("file", "log", "rlog"):
                 res["reads"].append(observe(lambda: SeekingReader(open(path, "rb"), validate_crcs=True), "seek", order, job.get("seek_att", False), job.get("seek_md", False)))
